@@ -338,3 +338,19 @@ Definition safe_grule_b (g : grule) : bool :=
   end.
 Definition safe_rules_b (gs : list grule) : bool := forallb safe_grule_b gs.
 Definition safe_stages_b (ss : list gstage) : bool := forallb (fun s => safe_rules_b (g_rules s)) ss.
+
+(* A design rule of the pipeline that the idempotence of the formatter rests
+   on: the comment stage decides what kind a comment is (block, head, tail,
+   inline) from the line breaks around it, so a stage that adds or removes
+   line breaks must SEE the comments (must not pass them through) - otherwise
+   it separates or joins a comment and code blindly and the next run of the
+   formatter reads the comment differently. *)
+Definition is_newline_token (t : token) : bool := match t with TNewline => true | _ => false end.
+Definition touches_line_breaks (g : grule) : bool :=
+  match g_act g with
+  | ADrop => existsb (fun ic => match fst ic with P1 => negb (N.eqb (N.land (snd ic) C_NEWLINE) 0) | _ => false end) (g_guards g)
+  | AInsert ts => existsb is_newline_token ts
+  | _ => false
+  end.
+Definition line_break_stage_sees_comments (s : gstage) : bool :=
+  if existsb touches_line_breaks (g_rules s) then N.eqb (N.land (g_pt s) C_COMMENT) 0 else true.
